@@ -27,6 +27,8 @@ type CallRedirect struct {
 	Recv   string `json:"recv"`   // identifier the method is called on
 	Method string `json:"method"` // method name
 	To     string `json:"to"`     // package-level function taking the receiver as first argument
+	// PkgFunc: Recv is a package name (a plain function call): the arguments are passed unchanged
+	PkgFunc bool `json:"pkg_func,omitempty"`
 }
 
 type Rewrite struct {
@@ -162,7 +164,9 @@ func applyRewrite(rw Rewrite) ([]byte, error) {
 				return true
 			}
 			call.Fun = ast.NewIdent(cr.To)
-			call.Args = append([]ast.Expr{ast.NewIdent(cr.Recv)}, call.Args...)
+			if !cr.PkgFunc {
+				call.Args = append([]ast.Expr{ast.NewIdent(cr.Recv)}, call.Args...)
+			}
 			n++
 			return true
 		})
